@@ -24,7 +24,7 @@ CONTEXTS = ["bare", "params", "photos", "photos+params", "wrapped", "extended-da
 REQUIRED = {**{f"context:{c}": 135 for c in CONTEXTS}, "published-name-in-all-contexts": 1, "prefix-pairs-all": 1, "published-after-user-registration": 135,
             "user-name": 200, "user-name:special-char:.": 3, "user-name:special-char:+": 3, "user-name:special-char:*": 3, "user-name:special-char:(": 3,
             "user-name:ends-in-nonword": 5, "user-name:extends-published": 20, "user-name:prefix-of-published": 20, "registration:several-calls": 20, "registered-names-second-parse": 20,
-            "near-miss-rejected": 300, "near-miss:dot-replaced": 3, "near-miss:alias-misspelled": 5, "alias-name-extends-model": 20}
+            "near-miss-rejected": 300, "near-miss:dot-replaced": 3, "near-miss:alias-misspelled": 5, "near-miss:alias-of-an-earlier-file": 5, "near-miss:registered-on-another-instance": 20, "alias-name-extends-model": 20}
 EXHAUSTIVE_NOTE = "all 135 published names x 8 contexts and all ordered prefix pairs are enumerated across the workers in every run"
 ASSUMPTIONS = ["labels next to model names extend them by letters, digits or '_' only (PHSP-x is, by the language's own tokenisation, PHSP with parameter -x)",
                "models are registered before parsing"]
@@ -232,12 +232,25 @@ def run(ctx):
         okk = check_accept(ctx, stmts, calls, "user")
         if it < 2:
             ctx.sample({"registered": um, "text": L.render(stmts)[:1500]})
+        # names registered on one parser are not known to another parser of the same interpreter
+        if okk:
+            for u in um[:3]:
+                # only names over letters, digits and '_' (PHSP-X unregistered is, by the language, PHSP with parameter -X)
+                if u not in models and re.fullmatch(r"[A-Za-z_][A-Za-z0-9_]*", u):
+                    check_reject(ctx, u, (), why="near-miss:registered-on-another-instance")
         # with a name containing '.', the same name with '.' replaced by a letter must be rejected
         for u in um:
             if "." in u and okk:
                 w = u.replace(".", "x")
                 if w not in allm:
                     check_reject(ctx, w, calls, why="near-miss:dot-replaced")
+    # ---- a ModelAlias of one file is not defined in the next file parsed in the same interpreter
+    for j in range(ctx.pick(6, 40)):
+        lab = f"LeakAlias{j % 3}"
+        stmts = [{"k": "ModelAlias", "name": lab, "model": rng.choice(models), "params": ["1.0"]},
+                 {"k": "Decay", "m": "B0", "lines": [{"bf": "1.0", "fs": ["pi+", "pi-"], "photos": False, "model": lab, "params": []}]}]
+        if check_accept(ctx, stmts, (), "alias"):
+            check_reject(ctx, lab, (), why="near-miss:alias-of-an-earlier-file")
     # ---- near-miss unknown words
     k = 0
     target = ctx.pick(110, 700)
